@@ -152,7 +152,7 @@ def fusion_worker(job):
             recs.append(fus)
             gen_ref.write_gvfs(case, recs)
         kw = cv_explore.default_kw(rng, True, opts.get('exception'))
-        canon = pipe.canonical_pool(case, **kw)
+        canon = pipe.model_canonical_pool(case, **kw)
         run = gen_ref.run_call_variant(case, tag='cv', **kw)
         desc = {'seed': seed, 'kw': kw, 'donor': donor, 'acceptor': acc, 'fusion': fus.id}
         out['desc'] = desc
@@ -475,6 +475,83 @@ def combo_worker(job):
         out['headers'] = {s: h for s, h in run.fasta.items()}
         out['stats']['runs'] = 1
         out['stats']['real_peptides'] = len(run.fasta)
+        return out
+    except Exception:   # noqa
+        out['stats']['worker_error'] = 1
+        out['error'] = traceback.format_exc()[-1500:]
+        return out
+    finally:
+        case.cleanup()
+
+
+def fusion_dense_worker(job):
+    """two genes, ONE fusion with an exonic accepter breakpoint and 6-7 SNVs spaced 3-4 nt on the
+    ACCEPTER right behind the breakpoint (one bubble inside the fusion subgraph, below the 13 records
+    at which the command starts to cap combinations).  Metamorphic: the run with all SNVs contains
+    the run without the last one."""
+    seed, tier, opts = job
+    rng = random.Random(seed)
+    out = {'stats': {}, 'seed': seed}
+    case = gen_ref.Case(gen_ref.work_dir('fdense'))
+    try:
+        import random as _r
+        from moPepGen import fake
+        with gen_ref.quiet():
+            gen_ref.make_reference(case, seed, 2)
+            genome, anno, _ = gen_ref.load_reference(case)
+        txs = list(anno.transcripts.keys())
+        fus = None
+        for _ in range(80):
+            _r.seed(rng.randrange(1 << 30))
+            donor = rng.choice(txs)
+            try:
+                f = fake.fake_fusion(anno, genome, donor)
+                acc = f.attrs['ACCEPTER_TRANSCRIPT_ID']
+                am = anno.transcripts[acc]
+                g = anno.coordinate_gene_to_genomic(int(f.attrs['ACCEPTER_POSITION']), am.transcript.gene_id)
+                t0 = am.get_transcript_index(g)
+            except Exception:   # noqa  intronic accepter breakpoint / no fusion possible
+                continue
+            fus = (f, acc, t0)
+            break
+        if fus is None:
+            out['stats']['no_exonic_accepter_fusion'] = 1
+            return out
+        f, acc, t0 = fus
+        k = rng.choice([6, 7])
+        step = rng.choice([3, 4])
+        snvs = []
+        acc_len = len(anno.transcripts[acc].get_transcript_sequence(
+            genome[anno.transcripts[acc].transcript.chrom]).seq)
+        for j in range(k):
+            q = t0 + 2 + step * j
+            if q >= acc_len - 2:
+                break
+            try:
+                g = anno.coordinate_transcript_to_genomic(q, acc)
+                st = anno.coordinate_genomic_to_gene(g, anno.transcripts[acc].transcript.gene_id)
+                gm = anno.genes[anno.transcripts[acc].transcript.gene_id]
+                ref = str(gm.get_gene_sequence(genome[gm.chrom]).seq[st:st + 1])
+                rec = gen_ref.make_snv(anno, genome, acc, q, rng.choice([c for c in 'ACGT' if c != ref]))
+            except Exception:   # noqa
+                rec = None
+            if rec is not None:
+                snvs.append(rec)
+        if len(snvs) < 5:
+            out['stats']['too_few_snvs'] = 1
+            return out
+        kw = cv_explore.default_kw(rng, True, None)
+        kw['miscleavage'] = rng.choice([2, 3])
+        kw['max_length'] = 40
+        out['desc'] = {'seed': seed, 'kw': kw, 'fusion': f.id, 'snvs': [r.id for r in snvs]}
+        runs = {}
+        for tag, recs in (('fewer', [f] + snvs[:-1]), ('all', [f] + snvs)):
+            with gen_ref.quiet():
+                gen_ref.write_gvfs(case, recs)
+            r = gen_ref.run_call_variant(case, tag=tag, **kw)
+            runs[tag] = {'status': r.status, 'real': sorted(r.fasta.keys())}
+        out['runs'] = runs
+        out['stats']['runs'] = 1
         return out
     except Exception:   # noqa
         out['stats']['worker_error'] = 1
